@@ -67,4 +67,12 @@ example : ∀ a ∈ [(1 : ℚ), 1, 3 / 4, 0, -1 / 8], Rep ⟨24, -149, by decide
   · exact ⟨0, 0, by norm_num, by norm_num, by norm_num⟩
   · exact ⟨-1, -3, by norm_num, by norm_num, by norm_num⟩
 
+/-- **Normal form, two terms**: `renormalize([a, b])` returns `[]`, `[s]` or `[s, t]` with the exact sum preserved and,
+in the last case, s = RN(s + t) and t ≠ 0 — a normalised (non-overlapping) double word — for every precision, emin and
+round-to-nearest.  (For three or more terms the non-overlap clause is decided by search.) -/
+theorem renorm_two_terms_normal (q : QFmt) (r : ℚ → ℚ) (hr : IsRN q r) (a b : ℚ) (ha : Rep q a) (hb : Rep q b) :
+    (renormEager (arithQ r) false [a, b]).sum = a + b ∧ (renormEager (arithQ r) false [a, b]).length ≤ 2 ∧
+    (∀ s t, renormEager (arithQ r) false [a, b] = [s, t] → r (s + t) = s ∧ t ≠ 0) :=
+  renorm2_normal hr ha hb
+
 end FAVerif.Props.C12
